@@ -252,6 +252,7 @@ static void enumerate (void)
   if (strstr (opt.levels, "L2")) pgen_L2 (on_prog, NULL, opt.classes);
   if (strstr (opt.levels, "L3")) pgen_L3 (on_prog, NULL, opt.classes & PG_FLOAT ? PG_FLOAT : PG_INT);
   if (strstr (opt.levels, "L5")) pgen_L5 (on_prog, NULL);
+  if (strstr (opt.levels, "LB")) pgen_LB (on_prog, NULL);
   if (strstr (opt.levels, "L6")) pgen_L6 (on_prog, NULL, opt.classes);
   if (strstr (opt.levels, "L4") && opt.corpus) {
     char buf[2048], *fn, *save;
